@@ -241,12 +241,17 @@ func c08Check(src []byte, m fmtMode) (bool, []c08Fail) {
 	if err != nil {
 		return true, []c08Fail{{"output-does-not-parse", oneLine(err.Error())}}
 	}
-	o := dumpOpts{simplify: m.simplify}
+	o := dumpOpts{simplify: m.simplify, resolve: true}
 	d0, d1 := dumpNode(f0, o), dumpNode(f1, o)
 	if d0 != d1 {
 		on := o
 		on.noComments = true
-		if dumpNode(f0, on) == dumpNode(f1, on) {
+		onr := o
+		onr.resolve = false
+		if dumpNode(f0, onr) == dumpNode(f1, onr) {
+			// same tree, but an identifier is bound to a different declaration
+			fails = append(fails, c08Fail{"reference-rebound", firstDiff(d0, d1)})
+		} else if dumpNode(f0, on) == dumpNode(f1, on) {
 			fails = append(fails, c08Fail{"comment-moved:" + commentMoveTag(f0, f1), firstDiff(d0, d1)})
 		} else {
 			fails = append(fails, c08Fail{"tree-changed", firstDiff(d0, d1)})
@@ -304,7 +309,7 @@ func c08Class(kind string, m fmtMode, src []byte, origin string) string {
 	if err != nil {
 		return strict
 	}
-	derived := strings.HasPrefix(origin, "mutant(") || strings.Contains(origin, "generated(seed") || strings.HasPrefix(origin, c08Irregular)
+	derived := strings.HasPrefix(origin, "mutant(") || strings.Contains(origin, "generated(seed") || strings.HasPrefix(origin, "literals(seed") || strings.HasPrefix(origin, c08Irregular)
 	corpusLoss := kind == "comment-lost" && !derived // an unmutated repository file loses a comment
 	var hang *c08Shape
 	if m.v2 && kind == "not-idempotent" {
@@ -343,6 +348,11 @@ func c08Class(kind string, m fmtMode, src []byte, origin string) string {
 		}
 	}
 	switch {
+	case m.simplify && kind == "reference-rebound" && hasQuotedLabelNamedByReference(f0):
+		return v + "-simplify-unquotes-label-that-a-reference-names"
+	case m.simplify && (kind == "output-does-not-parse" || kind == "second-fmt-fails") && hasQuotedLabelNamedByReference(f0) && !c08FailsWithoutSimplify(src, m, kind):
+		// `{"foo": y, [foo]: 1}`: the captured reference makes the output invalid (only with -s)
+		return v + "-simplify-unquotes-label-that-a-reference-names:" + kind
 	case m.simplify && kind == "tree-changed" && hasQuotedLabelWithIdentSibling(f0):
 		return v + "-simplify-unquotes-label-with-identifier-sibling"
 	case m.simplify && kind == "tree-changed" && hasAnyPatternWithAttr(f0):
@@ -396,6 +406,50 @@ func hasQuotedLabelWithIdentSibling(f *ast.File) bool {
 			check(s.Elts)
 		}
 		return true
+	}, nil)
+	return found
+}
+
+func c08FailsWithoutSimplify(src []byte, m fmtMode, kind string) bool {
+	plain := m
+	plain.simplify = false
+	plain.name = strings.TrimSuffix(m.name, "-s")
+	_, fails := c08Check(src, plain)
+	for _, f := range fails {
+		if c08Kind(f.kind) == kind {
+			return true
+		}
+	}
+	return false
+}
+
+// hasQuotedLabelNamedByReference: a quoted label "x" (unquotable by -s) while an identifier x is
+// used as a reference somewhere in the file (in a value, or in a label expression `(x)`, `"\(x)"`,
+// `[x]`): unquoting the label can capture that reference.
+func hasQuotedLabelNamedByReference(f *ast.File) bool {
+	quoted := map[string]bool{}
+	labels := map[*ast.Ident]bool{}
+	ast.Walk(f, func(n ast.Node) bool {
+		if fl, ok := n.(*ast.Field); ok {
+			switch l := fl.Label.(type) {
+			case *ast.BasicLit:
+				if l.Kind == token.STRING {
+					if s, err := literal.Unquote(l.Value); err == nil && !ast.StringLabelNeedsQuoting(s) {
+						quoted[s] = true
+					}
+				}
+			case *ast.Ident:
+				labels[l] = true
+			}
+		}
+		return true
+	}, nil)
+	found := false
+	ast.Walk(f, func(n ast.Node) bool {
+		if id, ok := n.(*ast.Ident); ok && !labels[id] && quoted[id.Name] {
+			found = true
+		}
+		return !found
 	}, nil)
 	return found
 }
@@ -644,6 +698,18 @@ func runC08(c *Cfg) {
 		c08Sweep(c, m, muts, "mutant")
 	}
 	c08Log("mutants done: %d", len(muts))
+
+	// re-indentation mutants of the files with multi-line literals, and generated literal programs
+	rmuts := c08ReindentMutants(c, r.Sub(), parseable, c.Pick(1500, 20000))
+	lits := c08GenLiteralPrograms(c, r.Sub(), c.Pick(1500, 20000))
+	for _, m := range c08DefaultModes {
+		c08Sweep(c, m, rmuts, "reindent-mutant")
+		c08Sweep(c, m, lits, "literal-program")
+	}
+	for _, m := range c08LegacyModes { // the literal streams are cheap: the legacy printer gets them too
+		c08Sweep(c, m, lits, "literal-program")
+	}
+	c08Log("literal streams done: %d re-indented, %d generated", len(rmuts), len(lits))
 
 	// generated programs with randomised layout
 	gens := c08GenPrograms(c, r.Sub(), c.Pick(2500, 40000))
